@@ -407,10 +407,15 @@ def oracle(cassis, sc, obs):
     return None
 
 
+def _id_key(e):
+    x = J.get(e, J.ID)
+    return x[1] if x and x[0] == "int" else -1
+
+
 def canon_doc(doc):
     """JSON value modulo member order; the order of the entries of %FEATURE_STRUCTURES is presentation too (sorted by id)."""
     c = J.canon(doc)
-    return ("obj", [(k, ("arr", sorted(v[1], key=lambda e: (J.get(e, J.ID) or ("int", 0))[1])) if k == J.FS and v[0] == "arr" else v)
+    return ("obj", [(k, ("arr", sorted(v[1], key=_id_key)) if k == J.FS and v[0] == "arr" else v)
                     for k, v in c[1]])
 
 
